@@ -8,7 +8,7 @@ import RdpModel.Props.C16
   implementation's token byte for byte and runs the verifier on the implementation's token.
 -/
 namespace Rdp.Nla
-open Rdp Rdp.Crypto Rdp.Spec.Nlmp Rdp.Schema
+open Rdp Rdp.Crypto Rdp.Spec.Nlmp Rdp.Schema Rdp.Global
 
 /-- Connecting from an NT hash uses the same account key as connecting from the password
     whose hash it is. -/
@@ -48,5 +48,285 @@ theorem c15_proofs (key sc cc ts ti : Bytes) :
     r.2.1 = hmacMd5 key (sc ++ cc) ++ cc ∧
     r.2.2 = hmacMd5 key (hmacMd5 key (sc ++ temp)) := by
   simp [computeResponseV2]
+
+/-! ### the composed token is accepted by the MS-NLMP verifier -/
+
+theorem bind_ok_inv {α β} (o : Outcome α) (k : α → Outcome β) (b : β) (h : o.bind k = .ok b) :
+    ∃ a, o = .ok a ∧ k a = .ok b := by
+  cases o with
+  | ok a => exact ⟨a, rfl, by simpa using h⟩
+  | err e => simp at h
+  | panic p => simp at h
+
+/-- a successful `read_challenge_message` is the response to the view it parsed -/
+theorem readChallenge_staged (i : NtlmIn) (request tok : Bytes) (h : readChallenge i request = .ok tok) :
+    ∃ v : ChalView, respond i request v = .ok tok ∧
+      (∃ fs, (readAll challengeTmpl request).bind castComp = .ok fs ∧
+        castSlice fs "ServerChallenge" = .ok v.sc ∧ castU32 fs "NegotiateFlags" = .ok v.flags) := by
+  unfold readChallenge at h
+  obtain ⟨m, hm, h⟩ := bind_ok_inv _ _ _ h
+  obtain ⟨fs, hfs, h⟩ := bind_ok_inv _ _ _ h
+  obtain ⟨sc, hsc, h⟩ := bind_ok_inv _ _ _ h
+  obtain ⟨payload, _, h⟩ := bind_ok_inv _ _ _ h
+  obtain ⟨msgLen, _, h⟩ := bind_ok_inv _ _ _ h
+  obtain ⟨tiLen, _, h⟩ := bind_ok_inv _ _ _ h
+  obtain ⟨tiOff, _, h⟩ := bind_ok_inv _ _ _ h
+  obtain ⟨ti, _, h⟩ := bind_ok_inv _ _ _ h
+  obtain ⟨ts, _, h⟩ := bind_ok_inv _ _ _ h
+  cases ts with
+  | none => simp at h
+  | some timestamp =>
+    simp only at h
+    obtain ⟨ek, hek, h⟩ := bind_ok_inv _ _ _ h
+    obtain ⟨flags, hflags, h⟩ := bind_ok_inv _ _ _ h
+    refine ⟨⟨sc, flags, ti, timestamp⟩, ?_, fs, ?_, hsc, hflags⟩
+    · unfold respond
+      simp only
+      rw [hek]
+      simpa using h
+    · rw [hm]; simpa using hfs
+def fld (b : Bytes) (off : Nat) : Bytes :=
+  encInt .le 2 (b.length % 65536) ++ encInt .le 2 (b.length % 65536) ++ encInt .le 4 (off % 4294967296)
+
+def versionBytes : Bytes := [6, 0] ++ encInt .le 2 6002 ++ encInt .le 2 0 ++ [0] ++ [0x0F]
+
+/-- the fixed part of AUTHENTICATE, byte for byte -/
+def hdrBytes (lm nt d u w ek : Bytes) (flags : Nat) : Bytes :=
+  let offset := if flags &&& NEGOTIATE_VERSION = 0 then 80 else 88
+  ntlmSig ++ encInt .le 4 3 ++ fld lm offset ++ fld nt (offset + lm.length) ++
+  fld d (offset + lm.length + nt.length) ++ fld u (offset + lm.length + nt.length + d.length) ++
+  fld w (offset + lm.length + nt.length + d.length + u.length) ++
+  fld ek (offset + lm.length + nt.length + d.length + u.length + w.length) ++
+  encInt .le 4 flags ++ (if flags &&& NEGOTIATE_VERSION = 0 then [] else versionBytes)
+
+theorem toVec_authenticate (lm nt d u w ek : Bytes) (flags : Nat) :
+    toVec (authenticateMsg lm nt d u w ek flags) = .ok (hdrBytes lm nt d u w ek flags) := by
+  by_cases hv : flags &&& NEGOTIATE_VERSION = 0
+  · simp [toVec, authenticateMsg, hdrBytes, fld, write, writeFields, options, evalOpt, addSkip, hv, u16le, u32le, blob, versionTmpl, intVal, Outcome.bind]
+  · simp [toVec, authenticateMsg, hdrBytes, fld, versionBytes, write, writeFields, writeList, options, evalOpt, addSkip, hv, u16le, u32le, blob, versionTmpl, intVal, Outcome.bind]
+
+theorem hdrBytes_length (lm nt d u w ek : Bytes) (flags : Nat) :
+    (hdrBytes lm nt d u w ek flags).length = if flags &&& NEGOTIATE_VERSION = 0 then 64 else 72 := by
+  by_cases hv : flags &&& NEGOTIATE_VERSION = 0 <;>
+    simp [hdrBytes, fld, versionBytes, hv, ntlmSig, encInt]
+
+macro "hdr_unfold" : tactic => `(tactic| (
+  simp only [u32at, u16at, hdrBytes, fld, encInt, leBytes, ntlmSig, List.cons_append, List.nil_append,
+      List.append_assoc, List.getD_cons_succ, List.getD_cons_zero]
+  simp
+  try omega))
+
+theorem hdr_len_lm (lm nt d u w ek : Bytes) (flags : Nat) (rest : Bytes) :
+    u16at (hdrBytes lm nt d u w ek flags ++ rest) 12 = lm.length % 65536 := by
+  hdr_unfold
+theorem hdr_off_lm (lm nt d u w ek : Bytes) (flags : Nat) (rest : Bytes) :
+    u32at (hdrBytes lm nt d u w ek flags ++ rest) (12 + 4) =
+      ((if flags &&& NEGOTIATE_VERSION = 0 then 80 else 88) + 0) % 4294967296 := by
+  hdr_unfold
+
+theorem hdr_len_nt (lm nt d u w ek : Bytes) (flags : Nat) (rest : Bytes) :
+    u16at (hdrBytes lm nt d u w ek flags ++ rest) 20 = nt.length % 65536 := by
+  hdr_unfold
+theorem hdr_off_nt (lm nt d u w ek : Bytes) (flags : Nat) (rest : Bytes) :
+    u32at (hdrBytes lm nt d u w ek flags ++ rest) (20 + 4) =
+      ((if flags &&& NEGOTIATE_VERSION = 0 then 80 else 88) + lm.length) % 4294967296 := by
+  hdr_unfold
+
+theorem hdr_len_d (lm nt d u w ek : Bytes) (flags : Nat) (rest : Bytes) :
+    u16at (hdrBytes lm nt d u w ek flags ++ rest) 28 = d.length % 65536 := by
+  hdr_unfold
+theorem hdr_off_d (lm nt d u w ek : Bytes) (flags : Nat) (rest : Bytes) :
+    u32at (hdrBytes lm nt d u w ek flags ++ rest) (28 + 4) =
+      ((if flags &&& NEGOTIATE_VERSION = 0 then 80 else 88) + lm.length + nt.length) % 4294967296 := by
+  hdr_unfold
+
+theorem hdr_len_u (lm nt d u w ek : Bytes) (flags : Nat) (rest : Bytes) :
+    u16at (hdrBytes lm nt d u w ek flags ++ rest) 36 = u.length % 65536 := by
+  hdr_unfold
+theorem hdr_off_u (lm nt d u w ek : Bytes) (flags : Nat) (rest : Bytes) :
+    u32at (hdrBytes lm nt d u w ek flags ++ rest) (36 + 4) =
+      ((if flags &&& NEGOTIATE_VERSION = 0 then 80 else 88) + lm.length + nt.length + d.length) % 4294967296 := by
+  hdr_unfold
+
+theorem hdr_len_w (lm nt d u w ek : Bytes) (flags : Nat) (rest : Bytes) :
+    u16at (hdrBytes lm nt d u w ek flags ++ rest) 44 = w.length % 65536 := by
+  hdr_unfold
+theorem hdr_off_w (lm nt d u w ek : Bytes) (flags : Nat) (rest : Bytes) :
+    u32at (hdrBytes lm nt d u w ek flags ++ rest) (44 + 4) =
+      ((if flags &&& NEGOTIATE_VERSION = 0 then 80 else 88) + lm.length + nt.length + d.length + u.length) % 4294967296 := by
+  hdr_unfold
+
+theorem hdr_len_ek (lm nt d u w ek : Bytes) (flags : Nat) (rest : Bytes) :
+    u16at (hdrBytes lm nt d u w ek flags ++ rest) 52 = ek.length % 65536 := by
+  hdr_unfold
+theorem hdr_off_ek (lm nt d u w ek : Bytes) (flags : Nat) (rest : Bytes) :
+    u32at (hdrBytes lm nt d u w ek flags ++ rest) (52 + 4) =
+      ((if flags &&& NEGOTIATE_VERSION = 0 then 80 else 88) + lm.length + nt.length + d.length + u.length + w.length) % 4294967296 := by
+  hdr_unfold
+
+theorem hdr_type (lm nt d u w ek : Bytes) (flags : Nat) (rest : Bytes) :
+    u32at (hdrBytes lm nt d u w ek flags ++ rest) 8 = 3 := by
+  hdr_unfold
+theorem hdr_flags (lm nt d u w ek : Bytes) (flags : Nat) (rest : Bytes) :
+    u32at (hdrBytes lm nt d u w ek flags ++ rest) 60 = flags % 4294967296 := by
+  hdr_unfold
+theorem hdr_sig (lm nt d u w ek : Bytes) (flags : Nat) (rest : Bytes) :
+    (hdrBytes lm nt d u w ek flags ++ rest).take 8 = [0x4e, 0x54, 0x4c, 0x4d, 0x53, 0x53, 0x50, 0x00] := by
+  simp [hdrBytes, ntlmSig]
+
+theorem slice_mid (pre x post : Bytes) : ((pre ++ x ++ post).drop pre.length).take x.length = x := by
+  rw [List.append_assoc, List.drop_left' rfl, List.take_left' rfl]
+
+theorem fieldAt_slice (tok pre x post : Bytes) (o minOff : Nat) (hlen : u16at tok o = x.length)
+    (hoff : u32at tok (o + 4) = pre.length) (htok : tok = pre ++ x ++ post) (hmin : minOff ≤ pre.length) :
+    fieldAt tok o minOff = some x := by
+  unfold fieldAt
+  simp only [hlen, hoff]
+  by_cases hx : x.length = 0
+  · rw [if_pos hx]; rw [List.length_eq_zero_iff.mp hx]
+  · rw [if_neg hx]
+    have hl : tok.length = pre.length + x.length + post.length := by rw [htok]; simp; omega
+    rw [if_neg (by omega)]
+    rw [htok, slice_mid]
+
+
+theorem verify_accepts (s : Server) (tok lm nt ws ek : Bytes) (micOff : Nat)
+    (hmo : (if s.flags &&& 0x02000000 ≠ 0 then 72 else 64) = micOff)
+    (h1 : micOff + 16 ≤ tok.length)
+    (h2 : tok.take 8 = [0x4e, 0x54, 0x4c, 0x4d, 0x53, 0x53, 0x50, 0x00])
+    (h3 : u32at tok 8 = 3) (h4 : u32at tok 60 = s.flags)
+    (f1 : fieldAt tok 12 (micOff + 16) = some lm) (f2 : fieldAt tok 20 (micOff + 16) = some nt)
+    (f3 : fieldAt tok 28 (micOff + 16) = some s.domain) (f4 : fieldAt tok 36 (micOff + 16) = some s.user)
+    (f5 : fieldAt tok 44 (micOff + 16) = some ws) (f6 : fieldAt tok 52 (micOff + 16) = some ek)
+    (hnt : 44 ≤ nt.length) (hrv : (nt.drop 16).take 2 = [1, 1])
+    (hproof : nt.take 16 = hmacMd5 s.accountKey (s.serverChallenge ++ nt.drop 16))
+    (hlm : lm = hmacMd5 s.accountKey (s.serverChallenge ++ ((nt.drop 16).drop 16).take 8) ++ ((nt.drop 16).drop 16).take 8)
+    (hekl : ek.length = 16)
+    (hmic : (tok.drop micOff).take 16 =
+      hmacMd5 (rc4kSpec (hmacMd5 s.accountKey (nt.take 16)) ek)
+        (s.negotiate ++ s.challenge ++ (tok.take micOff ++ List.replicate 16 0 ++ tok.drop (micOff + 16)))) :
+    verify s tok = .accept (rc4kSpec (hmacMd5 s.accountKey (nt.take 16)) ek) := by
+  unfold verify
+  simp only [hmo]
+  rw [if_neg (by omega)]
+  rw [if_neg (by simp [h2])]
+  rw [if_neg (by simp [h3])]
+  rw [if_neg (by simp [h4])]
+  simp only [f1, f2, f3, f4, f5, f6]
+  rw [if_neg (by simp)]
+  rw [if_neg (by simp)]
+  rw [if_neg (by omega)]
+  rw [if_neg (by simp [hrv])]
+  rw [if_neg (by simp [hproof])]
+  rw [if_neg (by rw [hlm]; simp)]
+  rw [if_neg (by simp [hekl])]
+  rw [if_neg (by simp [hmic])]
+
+/-- **Acceptance.**  For every account key, every name, every server challenge, flag set,
+    target-information block and every value of the two random inputs, the AUTHENTICATE token
+    the client builds in response to a CHALLENGE is accepted by the independent MS-NLMP
+    verifier, which recovers the exported session key: the field table addresses every field
+    inside the token, NTProofStr and the LMv2 response verify against the account key, the
+    RC4-wrapped session key unwraps, and the MIC verifies over the three messages.
+    Hypotheses: the sizes MS-NLMP itself can express (an 8-byte timestamp, 8-byte client
+    challenge, 16-byte session key, names and target information that fit 16-bit lengths). -/
+theorem c15_accept (i : NtlmIn) (request tok : Bytes) (v : ChalView)
+    (h : respond i request v = .ok tok)
+    (hts : v.timestamp.length = 8) (hcc : i.clientChallenge.length = 8) (hek : i.exportedKey.length = 16)
+    (hfl : v.flags < 4294967296) (hti : v.targetInfo.length + 48 < 65536)
+    (hd16 : i.domainU16.length < 65536) (hd8 : i.domainRaw.length < 65536)
+    (hu16 : i.userU16.length < 65536) (hu8 : i.userRaw.length < 65536) :
+    verify ⟨i.key, i.negotiate, request, v.sc, v.flags,
+            (if v.flags &&& 1 = 1 then i.domainU16 else i.domainRaw),
+            (if v.flags &&& 1 = 1 then i.userU16 else i.userRaw)⟩ tok = .accept i.exportedKey := by
+  unfold respond at h
+  simp only [computeResponseV2] at h
+  obtain ⟨ekx, hrc, h⟩ := bind_ok_inv _ _ _ h
+  rw [toVec_authenticate] at h
+  simp only [Outcome.bind_ok] at h
+  have htok := Outcome.ok.inj h
+  clear h
+  -- names
+  generalize hdom : (if v.flags &&& 1 = 1 then i.domainU16 else i.domainRaw) = dom at htok ⊢
+  generalize husr : (if v.flags &&& 1 = 1 then i.userU16 else i.userRaw) = usr at htok ⊢
+  have hdl : dom.length < 65536 := by rw [← hdom]; split <;> assumption
+  have hul : usr.length < 65536 := by rw [← husr]; split <;> assumption
+  generalize htemp : ([1, 1] ++ zeros 6 ++ v.timestamp ++ i.clientChallenge ++ zeros 4 ++ v.targetInfo : Bytes) = temp at htok hrc
+  have htl : temp.length = 28 + v.targetInfo.length := by rw [← htemp]; simp [zeros, hts, hcc]; omega
+  generalize hntp : hmacMd5 i.key (v.sc ++ temp) = ntp at htok hrc
+  have hntpl : ntp.length = 16 := by rw [← hntp]; exact hmacMd5_length _ _
+  generalize hlmh : hmacMd5 i.key (v.sc ++ i.clientChallenge) = lmh at htok
+  have hlmhl : lmh.length = 16 := by rw [← hlmh]; exact hmacMd5_length _ _
+  have hekl : ekx.length = 16 := by rw [c15_key_exchange_length _ _ _ hrc, hek]
+  have hunwrap := c15_key_exchange_unwraps _ _ _ hrc
+  generalize hhb : hdrBytes (lmh ++ i.clientChallenge) (ntp ++ temp) dom usr [] ekx v.flags = hb at htok
+  have hhbl : hb.length = if v.flags &&& NEGOTIATE_VERSION = 0 then 64 else 72 := by rw [← hhb]; exact hdrBytes_length _ _ _ _ _ _ _
+  generalize hmic : hmacMd5 i.exportedKey (i.negotiate ++ request ++ (hb ++ zeros 16 ++ (lmh ++ i.clientChallenge ++ (ntp ++ temp) ++ dom ++ usr ++ [] ++ ekx))) = mic at htok
+  have hmicl : mic.length = 16 := by rw [← hmic]; exact hmacMd5_length _ _
+  -- the token and its parts
+  have hlm : (lmh ++ i.clientChallenge).length = 24 := by simp [hlmhl, hcc]
+  have hnt : (ntp ++ temp).length = 44 + v.targetInfo.length := by simp [hntpl, htl]; omega
+  generalize hLM : lmh ++ i.clientChallenge = lm at htok hhb hmic hlm
+  generalize hNT : ntp ++ temp = nt at htok hhb hmic hnt
+  have htokH : tok = hdrBytes lm nt dom usr [] ekx v.flags ++ (mic ++ (lm ++ nt ++ dom ++ usr ++ [] ++ ekx)) := by
+    rw [← htok, hhb]; simp [List.append_assoc]
+  have hoff : (if v.flags &&& NEGOTIATE_VERSION = 0 then 80 else 88) = hb.length + 16 := by
+    rw [hhbl]; split <;> rfl
+  have hmo : (if v.flags &&& 0x02000000 ≠ 0 then 72 else 64) = hb.length := by
+    rw [hhbl]; simp only [NEGOTIATE_VERSION]; split <;> simp_all
+  have hhb72 : 64 ≤ hb.length ∧ hb.length ≤ 72 := by rw [hhbl]; split <;> omega
+  have htl' : tok.length = hb.length + 16 + (24 + (44 + v.targetInfo.length) + dom.length + usr.length + 0 + 16) := by
+    rw [← htok]; simp [hmicl, hlm, hnt, hekl]; omega
+  have res := verify_accepts ⟨i.key, i.negotiate, request, v.sc, v.flags, dom, usr⟩ tok lm nt [] ekx hb.length hmo
+    (by omega)
+    (by rw [htokH]; exact hdr_sig _ _ _ _ _ _ _ _)
+    (by rw [htokH]; exact hdr_type _ _ _ _ _ _ _ _)
+    (by rw [htokH, hdr_flags]; exact Nat.mod_eq_of_lt hfl)
+    (fieldAt_slice tok (hb ++ mic) lm (nt ++ dom ++ usr ++ [] ++ ekx) 12 _
+      (by rw [htokH, hdr_len_lm]; exact Nat.mod_eq_of_lt (by omega))
+      (by rw [htokH, hdr_off_lm, hoff]; simp [hmicl]; try omega)
+      (by rw [← htok]; simp [List.append_assoc]) (by simp [hmicl]))
+    (fieldAt_slice tok (hb ++ mic ++ lm) nt (dom ++ usr ++ [] ++ ekx) 20 _
+      (by rw [htokH, hdr_len_nt]; exact Nat.mod_eq_of_lt (by omega))
+      (by rw [htokH, hdr_off_nt, hoff]; simp [hmicl, hlm]; try omega)
+      (by rw [← htok]; simp [List.append_assoc]) (by simp [hmicl]; try omega))
+    (fieldAt_slice tok (hb ++ mic ++ lm ++ nt) dom (usr ++ [] ++ ekx) 28 _
+      (by rw [htokH, hdr_len_d]; exact Nat.mod_eq_of_lt hdl)
+      (by rw [htokH, hdr_off_d, hoff]; simp [hmicl, hlm, hnt]; try omega)
+      (by rw [← htok]; simp [List.append_assoc]) (by simp [hmicl]; try omega))
+    (fieldAt_slice tok (hb ++ mic ++ lm ++ nt ++ dom) usr ([] ++ ekx) 36 _
+      (by rw [htokH, hdr_len_u]; exact Nat.mod_eq_of_lt hul)
+      (by rw [htokH, hdr_off_u, hoff]; simp [hmicl, hlm, hnt]; try omega)
+      (by rw [← htok]; simp [List.append_assoc]) (by simp [hmicl]; try omega))
+    (fieldAt_slice tok (hb ++ mic ++ lm ++ nt ++ dom ++ usr) [] ekx 44 _
+      (by rw [htokH, hdr_len_w]; rfl)
+      (by rw [htokH, hdr_off_w, hoff]; simp [hmicl, hlm, hnt]; try omega)
+      (by rw [← htok]; simp [List.append_assoc]) (by simp [hmicl]; try omega))
+    (fieldAt_slice tok (hb ++ mic ++ lm ++ nt ++ dom ++ usr ++ []) ekx [] 52 _
+      (by rw [htokH, hdr_len_ek]; exact Nat.mod_eq_of_lt (by omega))
+      (by rw [htokH, hdr_off_ek, hoff]; simp [hmicl, hlm, hnt]; try omega)
+      (by rw [← htok]; simp [List.append_assoc]) (by simp [hmicl]; try omega))
+    (by omega)
+    (by rw [← hNT, List.drop_left' hntpl, ← htemp]; simp)
+    (by rw [← hNT, List.take_left' hntpl, List.drop_left' hntpl]; exact hntp.symm)
+    (by
+      have hcc' : ((nt.drop 16).drop 16).take 8 = i.clientChallenge := by
+        rw [← hNT, List.drop_left' hntpl, ← htemp]
+        have : ([1, 1] ++ zeros 6 ++ v.timestamp ++ i.clientChallenge ++ zeros 4 ++ v.targetInfo : Bytes)
+            = ([1, 1] ++ zeros 6 ++ v.timestamp) ++ (i.clientChallenge ++ (zeros 4 ++ v.targetInfo)) := by simp [List.append_assoc]
+        rw [this, List.drop_left' (by simp [zeros, hts]), List.take_left' hcc]
+      rw [hcc', ← hLM, hlmh])
+    hekl
+    (by
+      have h16 : (hb ++ mic).length = hb.length + 16 := by simp [hmicl]
+      have e1 : (tok.drop hb.length).take 16 = mic := by
+        rw [← htok, List.append_assoc, List.drop_left' rfl, List.take_left' hmicl]
+      have e2 : tok.take hb.length = hb := by rw [← htok, List.append_assoc, List.take_left' rfl]
+      have e3 : tok.drop (hb.length + 16) = lm ++ nt ++ dom ++ usr ++ [] ++ ekx := by
+        rw [← htok, ← h16, List.drop_left' rfl]
+      have e4 : nt.take 16 = ntp := by rw [← hNT, List.take_left' hntpl]
+      rw [e1, e2, e3, e4, hunwrap, ← hmic]
+      rfl)
+  rw [res, ← hNT, List.take_left' hntpl, hunwrap]
 
 end Rdp.Nla
